@@ -2,7 +2,7 @@
 # usage: confirm_seed.sh <seed_dir> <worktree> <pkgdir>   — confirms a seeded change in a scratch worktree:
 #  (1) with the patch the package's existing tests pass, (2) the demo fails with the patch, (3) passes without.
 set -u
-seed=$1; wt=$2; pkg=$3
+seed=$1; wt=$2; pkg=${3:-$(cat $1/NOTE.txt | head -1 | tr -d " \n")}
 cd "$wt" || exit 2
 git checkout -q -- . ; git clean -fdq
 demo=$(ls "$seed"/*_test.go | head -1)
